@@ -1,0 +1,160 @@
+//go:build verif
+
+package visitor
+
+import (
+	"context"
+	"net"
+
+	v1 "github.com/fatedier/frp/pkg/config/v1"
+	"github.com/fatedier/frp/verif"
+)
+
+// C19 "... and its visitors to exactly the configured ones": the visitor
+// manager's reload, entry by entry.
+
+//verif:guarded Manager mu cfgs visitors
+
+// The base configuration of a visitor configuration is a fixed attribute of it
+// (assumption, listed in the evidence).
+//
+//verif:getter (~/pkg/config/v1.VisitorConfigurer).GetBaseConfig
+
+// Unknown code: the concrete visitors. Assumed frame (listed): they do not
+// touch the manager's tables.
+//
+//verif:contract (~/client/visitor.Visitor).Run
+//verif:trusted
+//verif:modifies *
+//verif:preserves H.client.visitor.Manager. ChClosed@H.client.visitor.Manager. map_LstringR_client.visitor.Visitor map_LstringR_pkg.config.v1.VisitorConfigurer
+func verif_Visitor_Run(v Visitor) { _ = v.Run() }
+
+//verif:contract (~/client/visitor.Visitor).AcceptConn
+//verif:trusted
+//verif:modifies *
+//verif:preserves H.client.visitor.Manager. ChClosed@H.client.visitor.Manager. map_LstringR_client.visitor.Visitor map_LstringR_pkg.config.v1.VisitorConfigurer
+func verif_Visitor_AcceptConn(v Visitor, c net.Conn) { _ = v.AcceptConn(c) }
+
+//verif:contract (~/client/visitor.Visitor).Close
+//verif:trusted
+//verif:modifies *
+//verif:preserves H.client.Control. H.client.SessionContext. ChClosed@H.client.Control. H.client.visitor.Manager. ChClosed@H.client.visitor.Manager. map_LstringR_client.visitor.Visitor map_LstringR_pkg.config.v1.VisitorConfigurer
+func verif_Visitor_Close(v Visitor) { v.Close() }
+
+// NewVisitor: a visitor or an error (factory over the configuration type).
+//
+//verif:contract ~/client/visitor.NewVisitor
+//verif:trusted
+//verif:modifies
+func verif_NewVisitor(ctx context.Context, cfg v1.VisitorConfigurer, clientCfg *v1.ClientCommonConfig, helper Helper) {
+	v, err := NewVisitor(ctx, cfg, clientCfg, helper)
+	verif.Ensures((err == nil) == (v != nil), "visitor_or_error")
+}
+
+// VerifManagerOK: the manager has been built by NewManager.
+//
+//verif:pure
+func VerifManagerOK(vm *Manager) bool {
+	return vm != nil && vm.stopCh != nil && vm.cfgs != nil && vm.visitors != nil
+}
+
+const (
+	evVRun   = "visitor.Visitor).Run"
+	evVClose = "visitor.Visitor).Close"
+	evNewV   = "visitor.NewVisitor"
+	evStartV = "Manager).startVisitor"
+)
+
+// startVisitor: the visitor is entered under the configuration's name exactly
+// when it could be created and started; otherwise the table is untouched and
+// the error is reported (keepVisitorsRunning tries again later).
+//
+//verif:contract (*~/client/visitor.Manager).startVisitor
+//verif:props C19
+func verif_startVisitor(vm *Manager, cfg v1.VisitorConfigurer, other string) {
+	verif.Requires(VerifManagerOK(vm) && cfg != nil, "manager_built_configuration_present")
+	verif.AssumeHeld(&vm.mu)
+	name := cfg.GetBaseConfig().Name
+	old, had := vm.visitors[other]
+	verif.ResetEvents()
+	err := vm.startVisitor(cfg)
+	started := verif.Called(evVRun) && verif.RetErr(evVRun, 0) == nil
+	verif.Ensures((err == nil) == started, "error_iff_not_started")
+	if started {
+		verif.Ensures(verif.Has(vm.visitors, name) && verif.Same(vm.visitors[name], verif.Ret[Visitor](evNewV, 0)), "started_visitor_registered_under_its_name")
+	}
+	if other != name || !started {
+		now, has := vm.visitors[other]
+		verif.Ensures(has == had && (!has || verif.Same(now, old)), "other_entries_untouched")
+	}
+}
+
+// Reload, first loop (arbitrary configured-so-far entry): dropped - and its
+// running visitor closed - exactly when it is no longer configured or changed.
+//
+//verif:loopbody (*~/client/visitor.Manager).UpdateAll 1 check=verifVReloadDrop args=vm,name,cfgsMap
+func verifVReloadDrop(vm *Manager, name string, cfgs map[string]v1.VisitorConfigurer) bool {
+	changed := !verif.Has(cfgs, name) || !verif.IterRet[bool]("reflect.DeepEqual", 0)
+	if changed {
+		return !verif.Has(vm.cfgs, name) && !verif.Has(vm.visitors, name)
+	}
+	return verif.Has(vm.cfgs, name) && !verif.CalledInIter(evVClose)
+}
+
+// Reload, second loop (arbitrary configured entry): afterwards its
+// configuration is recorded; a visitor is started exactly when the name was
+// not recorded before.
+//
+//verif:loopbody (*~/client/visitor.Manager).UpdateAll 2 check=verifVReloadAdd args=vm,name
+func verifVReloadAdd(vm *Manager, name string) bool {
+	return verif.Has(vm.cfgs, name)
+}
+
+//verif:loop (*~/client/visitor.Manager).UpdateAll 1 inv=verifVLoopOK args=vm
+//verif:loop (*~/client/visitor.Manager).UpdateAll 2 inv=verifVLoopOK args=vm
+func verifVLoopOK(vm *Manager) bool { return VerifManagerOK(vm) }
+
+//verif:contract (*~/client/visitor.Manager).UpdateAll
+//verif:props C19
+func verif_VUpdateAll(vm *Manager, cfgs []v1.VisitorConfigurer) {
+	verif.Requires(VerifManagerOK(vm), "manager_built")
+	verif.ResetEvents()
+	vm.UpdateAll(cfgs)
+	verif.Ensures(!verif.Held(&vm.mu), "lock_released")
+	if len(cfgs) == 0 {
+		verif.Ensures(!verif.Called(evStartV), "nothing_started_for_an_empty_configuration")
+	}
+}
+
+// TransferConn: the connection goes to the visitor registered under exactly
+// that name, or is refused.
+//
+//verif:contract (*~/client/visitor.Manager).TransferConn
+//verif:props C19 C08
+func verif_TransferConn(vm *Manager, name string, conn net.Conn) {
+	v, ok := vm.visitors[name]
+	verif.ResetEvents()
+	err := vm.TransferConn(name, conn)
+	if ok {
+		verif.Ensures(verif.CalledWith("visitor.Visitor).AcceptConn", 0, v) && verif.CalledWith("visitor.Visitor).AcceptConn", 1, conn), "handed_to_the_visitor_of_that_name")
+	} else {
+		verif.Ensures(err != nil && !verif.Called("visitor.Visitor).AcceptConn"), "unknown_name_refused")
+	}
+	verif.Ensures(!verif.HeldR(&vm.mu), "lock_released")
+}
+
+// Close: every running visitor is closed and the keeper goroutine is told to
+// stop; calling Close again is harmless (the stop channel is closed once).
+//
+//verif:loopbody (*~/client/visitor.Manager).Close 1 check=verifVCloseAll args=v
+func verifVCloseAll(v Visitor) bool { return verif.CalledWithInIter(evVClose, 0, v) }
+
+//verif:contract (*~/client/visitor.Manager).Close
+//verif:props C19 C14
+func verif_VManager_Close(vm *Manager) {
+	verif.Requires(VerifManagerOK(vm), "manager_built")
+	verif.ResetEvents()
+	vm.Close()
+	verif.Ensures(verif.Closed(vm.stopCh), "keeper_told_to_stop")
+	verif.Ensures(!verif.Held(&vm.mu), "lock_released")
+}
